@@ -269,7 +269,7 @@ func init() {
 		ID: "C02",
 		Harnesses: []harnessSpec{
 			{Pkg: "bkl", Func: "HarnessC02_stream", Tiers: "qt", Covers: []string{"stream.layered", "stream.multi", "stream.rejected"},
-				Bound: "base stream of 1-2 documents (a: any scalar | map; thorough: 1-3 documents, a may be absent), a further layer of 1-2 documents (thorough, 3 base documents: 1) and an optional probing layer of 1 document (full menu in thorough when the layer before has one document); quick also 3 base documents x 2 layers x 1-2 documents with reduced menus; layer documents override/add scalars, maps (also the empty map) and lists of maps and carry no $match, $match: null | {} | {a: s} | {a: s, $invert: true} | {a: {x: 1}} | {a: {x: 1, $invert: true}}, or $replace: true; pattern hits decided by the reference matcher; parent links as file.setParents sets them; after every MergeDocument: count, order and content equal the functional stream model (private copies), and no two documents share a map or list"},
+				Bound: "base stream of 1-2 documents (a: any scalar | map | list [p,q]; thorough: 1-3 documents, a may be absent), a further layer of 1-2 documents (thorough, 3 base documents: 1) and an optional probing layer of 1 document (full menu in thorough when the layer before has one document); quick also 3 base documents x 2 layers x 1-2 documents with reduced menus; layer documents override/add scalars, maps (also the empty map) and lists of maps and carry no $match, $match: null | {} | {a: s} | {a: s, $invert: true} | {a: {x: 1}} | {a: {x: 1, $invert: true}} | {a: [p, q]} | {a: [q, z]} (list patterns: all entries must be found), or $replace: true; pattern hits decided by the reference matcher; parent links as file.setParents sets them; after every MergeDocument: count, order and content equal the functional stream model (private copies), and no two documents share a map or list"},
 		},
 		Assume:  pipeAssume,
 		Outside: "4 base documents, 3 further layers, duplicate document IDs, file loading itself (C03)",
